@@ -10,7 +10,7 @@ GEN = ("rapid state machine: a generated valid genesis (fees, allowlist, allowed
        "state-aware steps drawn from a weighted profile over all message types, blocks (1 ns .. years, landing on expirations), restarts and faucet steps; ")
 DIST = " Distinct = distinct (step kind, accepted?) sequences."
 
-def stateful(test, rule, quick=2400, thorough=96000, qsteps=40, tsteps=70, extra=None, qtimeout=900):
+def stateful(test, rule, quick=4000, thorough=160000, qsteps=40, tsteps=70, extra=None, qtimeout=900):
     d = {
         "test": test, "rule": GEN + rule + DIST, "assumptions": list(STATEFUL_ASSUMPTIONS),
         "quick": {"checks": quick, "steps": qsteps, "shards": 8, "timeout": qtimeout, "shrink": "15s"},
@@ -67,11 +67,11 @@ CHECKS = {
         "Non-trivial = a guarded message accepted after the role moved AND a former holder rejected."),
     "C09": stateful("TestC09",
         "custom step 'roundtrip' (and always at the end): ExportGenesis of ecocredit+data (+auth,bank) -> each module's ValidateGenesis -> InitGenesis into an empty chain -> re-export byte-identical after JSON canonicalisation -> registered invariants hold on the imported chain. "
-        "Non-trivial = a round trip over a state with rows in >=10 tables.", quick=1600),
+        "Non-trivial = a round trip over a state with rows in >=10 tables.", quick=2400),
     "C10": stateful("TestC10",
         "differential: each generated trace is executed 6 times in-process (as generated, again, with restarts at all / none / the complementary set of block boundaries, and with the failed messages removed) and, in the thorough tier, once more in a second OS process; "
         "per-block app hash, per-message success flag, ABCI code, response bytes, event bytes and gas must be identical (block hashes only for the failed-messages-removed run). "
-        "Non-trivial = a restart strictly inside the history followed by >=5 accepted messages, with data-module messages accepted.", quick=640, thorough=24000),
+        "Non-trivial = a restart strictly inside the history followed by >=5 accepted messages, with data-module messages accepted.", quick=800, thorough=30000),
     "C11": stateful("TestC11",
         "Put: accepted <=> reference admission rule (basket exists, class listed, type matches, start date >= criterion computed with exact calendar arithmetic at block time, amount positive within precision, cumulative owner balance) - both directions; "
         "Take: auto-retire honoured, delivered retired iff retire applies, response sums to amount/10^p, every entry but the last drains its batch, start dates non-decreasing, no untouched older batch, post-state balances match. "
@@ -97,7 +97,7 @@ CHECKS = {
     "C16": stateful("TestC16",
         "configurations: production hasher, MinLength 1/2/8, and weak hashes with k in {1,2,3,16} distinct outputs (incl. repeated-byte outputs) injected through the verif build-tag hook; histories of Anchor/Attest/DefineResolver/RegisterResolver over a pool of 14 content hashes. "
         "After every step: DataID is a growing bijection id<->iri that never changes, anchor timestamp == block time of first anchoring forever, attestations written once, resolver rows and registrations never lost or changed, responses return stored iri/timestamp, only managers register to private resolvers. "
-        "Non-trivial = >=3 IRIs share a probe prefix AND an IRI is re-anchored in a later block.", quick=3200, thorough=120000),
+        "Non-trivial = >=3 IRIs share a probe prefix AND an IRI is re-anchored in a later block.", quick=4800, thorough=200000),
     "C17": stateful("TestC17",
         "custom steps 'query' and 'get': 27 list queries (filter argument present / absent / prefix-of-present; page sizes 1,2,3,5,n-1,n,n+1,1000; forward and reverse) walked by key and by offset through the real GRPCQueryRouter and compared as multisets and as sequences with a brute-force filter over the snapshot, "
         "totals checked on count_total requests; 11 single-entity queries compared with the stored rows. Genesis may contain prefix-colliding ids (C10/C100, C10-100/C10-1000). "
@@ -105,7 +105,7 @@ CHECKS = {
     "C18": stateful("TestC18",
         "configurations = genesis values accepted by ValidateGenesis and governance messages accepted by their validators over boundary sets (fee unset/0/1/typical/>funds; rates '', 0, 0.0, tiny, 1, >1, 34+ digits; allowlist; allowed denoms). At genesis and after every accepted configuration change, canary operations whose own preconditions the harness establishes "
         "(CreateClass and basket Create by an eligible funded creator offering the fee, Put, Take, Sell in an allowed denom, BuyDirect with funds and ample max fee) run on a discarded branch and must all succeed; creations debit exactly the fee and burn it; below-fee offers are rejected; every accepted creation in the history is checked the same way. "
-        "Non-trivial = a configuration with a boundary value followed by >=3 canary runs.", quick=1600, qsteps=30),
+        "Non-trivial = a configuration with a boundary value followed by >=3 canary runs.", quick=2400, qsteps=30),
     "C19": pure("TestC19",
         "pairs of decimal strings from a grammar (signs, 0..40 digit coefficients with a point anywhere, e/E exponents -30..40, zeros incl. -0 / 0e5 / 0.000; pairs biased to equal values, one ulp apart, products/quotients straddling 34 digits) checked against math/big.Rat: parse, Add/Sub exact, guarded subtraction, MulExact/QuoExact exact-or-error, "
         "Mul/Quo within one unit of the 34th digit, SdkIntTrim == truncation (within 256 bits), BigInt, plain String() that re-parses, predicates, NumDecimalPlaces, and bit-identical operands (reflection over coefficient words) after every operation and after operating on results. "
